@@ -132,8 +132,10 @@ class MinGenSet():
 
         if remove_complement_values:
             elements_to_remove = set()
+            # Dropping `total - x` when `x` is present is only correct if every element is used at most once
+            complement_removal_is_valid = (self.max_multiplicity == 1)
             for val in self.numbers:
-                if total - val in self.numbers and total - val > val:
+                if complement_removal_is_valid and total - val in self.numbers and total - val > val:
                     elements_to_remove.add(total - val)
                 if val == total or val == 0:
                     elements_to_remove.add(val)
